@@ -23,6 +23,8 @@ def run(ctx):
     c_catch(ctx, names, temps)
     d_normaliser(ctx)
     e_all_matching_heads(ctx)
+    d_members_copied(ctx)
+    a_matchers_armed_before_start(ctx, temps)
 
 
 def _segment_after(elems, g, st, start, stop_cls=("MergeHeads", "Abort")):
@@ -278,3 +280,92 @@ def e_all_matching_heads(ctx):
     exits = [x for l in loops for x in ast.walk(l) if isinstance(x, (ast.Break, ast.Return))]
     ctx.check("C07.e.all-matching-heads", SM, "_handle_event_matching", "visits every matching head", bool(loops) and not exits,
               "the handler iterates over all matching heads without leaving the loop early", line=hem.lineno)
+
+
+def d_members_copied(ctx):
+    """The distribution step of the normaliser concatenates member lists without copying: in `a and (b or c)` the element `a` is ONE object that is a
+    member of two and-groups.  A group expander that writes into a member (per-group reference, arguments) must therefore work on a copy of it,
+    otherwise the last group's values overwrite those of the earlier groups (F35)."""
+    from ..pycfg import walk_no_nested
+    mod = ctx.tree.ast(EXP)
+    nf = find_function(mod, "normalize_element_groups")
+    shares = nf is not None and not any(isinstance(c, ast.Call) and src(c.func) in ("copy.deepcopy", "deepcopy", "copy.copy") for c in ast.walk(nf))
+    n_loops = 0
+    for name in GROUP_EXPANDERS:
+        fn = find_function(mod, name)
+        if fn is None:
+            raise AnalysisError("%s not found" % name, anchor=EXP + "::" + name)
+        for l in [x for x in ast.walk(fn) if isinstance(x, ast.For) and isinstance(x.target, ast.Name) and re.search(r"\[[\"']elements[\"']\]$", src(x.iter))
+                  and not src(x.iter).startswith("normalized")]:
+            v = l.target.id
+            n_loops += 1
+            rebinds = [a for a in l.body if isinstance(a, ast.Assign) and src(a.targets[0]) == v and isinstance(a.value, ast.Call) and src(a.value.func) in ("copy.deepcopy", "deepcopy")]
+            first_copy = min([a.lineno for a in rebinds]) if rebinds else None
+            stores = []
+            for n in ast.walk(l):
+                tg = n.targets if isinstance(n, ast.Assign) else [n.target] if isinstance(n, ast.AugAssign) else []
+                for x in tg:
+                    b = x
+                    while isinstance(b, (ast.Attribute, ast.Subscript)):
+                        b = b.value
+                    if isinstance(x, (ast.Attribute, ast.Subscript)) and isinstance(b, ast.Name) and b.id == v:
+                        stores.append(n)
+                if isinstance(n, ast.Call) and isinstance(n.func, ast.Attribute) and n.func.attr in ("update", "append", "pop", "setdefault", "clear") and isinstance(n.func.value, (ast.Attribute, ast.Subscript)):
+                    b = n.func.value
+                    while isinstance(b, (ast.Attribute, ast.Subscript)):
+                        b = b.value
+                    if isinstance(b, ast.Name) and b.id == v:
+                        stores.append(n)
+            bad = [st for st in stores if first_copy is None or st.lineno < first_copy]
+            ok = not (shares and bad)
+            ctx.check("C07.d.members-copied", EXP, name, "for %s in %s" % (v, src(l.iter)), ok,
+                      ("members are only read" if not stores else "the member is re-bound to a deep copy before it is written (%d write(s))" % len(stores)) if ok else
+                      "`%s` writes into a group member that the normaliser shares between and-groups (`a and (b or c)`): every group but the last one starts/matches its flow with the reference "
+                      "variables of ANOTHER group, which are not defined yet - the flow containing the statement fails as soon as it reaches it" % first_line(bad[0], 60), line=(bad[0].lineno if bad else l.lineno))
+    ctx.floor("C07.d.members-copied", EXP, "loops over the members of an and-group", n_loops, 4)
+
+
+def a_matchers_armed_before_start(ctx, temps):
+    """`await`/`when` on an and-group of flows: a `start` statement blocks its head until FlowStarted of that member arrives.  If a later member is started
+    between the start of member i and the point where the matcher for `i.Finished()` becomes active, a member that finishes in the round it is started
+    emits its Finished event while nothing listens for it: the group never completes, and whether it does depends on the ORDER the members are written in."""
+    per = {}
+    for fn, sizes, oracle, elems in temps:
+        if fn not in ("_expand_await_element", "_expand_when_stmt_element"):
+            continue
+        # linear segments between labels
+        seg = []
+        worst = per.setdefault(fn, [0, None, 0])
+        worst[2] += 1
+
+        def close(seg):
+            starts = [e for e in seg if e.cls == "SpecOp" and e.fields.get("op") == "start"]
+            matches = [e for e in seg if e.cls == "SpecOp" and e.fields.get("op") == "match"]
+
+            def members(e):
+                sp = e.fields.get("spec")
+                if isinstance(sp, dict) and isinstance(sp.get("elements"), list):
+                    return len(sp["elements"])    # a start on a whole and-group expands into one start per member, in sequence
+                return 1
+            k = sum(members(e) for e in starts)
+            if k >= 2 and matches:
+                # the first member's matcher is armed only after the last start has received its FlowStarted
+                if k > worst[0]:
+                    worst[0] = k
+                    worst[1] = (starts[0].line, C12._sz(sizes))
+        for e in elems:
+            if isinstance(e, Rec) and e.cls == "Label":
+                close(seg)
+                seg = []
+            elif isinstance(e, Rec):
+                seg.append(e)
+        close(seg)
+    if not per:
+        raise AnalysisError("no await/when templates", anchor=EXP + "::_expand_await_element")
+    for fn, (k, where, n) in sorted(per.items()):
+        ok = k == 0
+        ctx.check("C07.a.armed-before-start", EXP, fn, "members of an and-group are started one after the other before any Finished matcher is armed", ok,
+                  "in all %d template instances every member's Finished matcher is active before another member's start can block the head" % n if ok else
+                  "the and-group template emits %d `start` statements in sequence and arms the Finished matchers only afterwards (witness %s): a member that finishes in the round it is started "
+                  "(`await quick and slow`) is missed while the head waits for the next member's FlowStarted, so the statement never completes - `await slow and quick` does" % (k, where[1]),
+                  line=(where[0] if where else 1))
